@@ -23,7 +23,7 @@
    AttachClient (C06), liveness (wedging).  Hence the top statement is
    router_never_panics_partial. *)
 From Coq Require Import String List ZArith NArith Bool.
-From Nexus Require Import Safety.Values Safety.Accessors Safety.AccessorProofs.
+From Nexus Require Import Safety.Values Safety.Accessors Safety.AccessorProofs Safety.FuelProofs.
 From Nexus Require Import Safety.Sites Safety.SiteProofs Safety.Close Safety.CloseProofs.
 From Nexus Require Import Safety.Policy Safety.PolicyProofs Safety.Conformance.
 From Nexus Require Import gen.GenC04Sites.
@@ -47,6 +47,11 @@ Theorem accessors_total :
   (forall t v, bare t v = Panic <-> has_type t v = false).
 Proof. exact accessors_total_proof. Qed.
 Print Assumptions accessors_total.
+
+(* the fuel the model gives NormalizeDict always suffices: it answers on every value *)
+Theorem normalize_dict_answers : forall v, exists d, normalize v = Ok d.
+Proof. exact normalize_answers. Qed.
+Print Assumptions normalize_dict_answers.
 
 Theorem bare_assertion_panics_iff : forall t v, bare t v = Panic <-> has_type t v = false.
 Proof. exact bare_panics_iff. Qed.
